@@ -1,6 +1,6 @@
 #!/bin/sh
-# ./seedrun.sh <seeded/dir> <props...> : runs the checks of the given properties against a scratch copy of
-# /repo with the seed's patch.diff applied (VK_REPO); /repo itself is not touched.
+# ./seedrun.sh <seeded/dir | file.diff> <props...> : runs the checks of the given properties against a scratch copy of
+# /repo with the seed's patch.diff (or the given diff) applied (VK_REPO); /repo itself is not touched.
 set -e
 cd "$(dirname "$0")"
 seed="$1"; shift
@@ -8,5 +8,7 @@ d=$(mktemp -d /tmp/vk-seed-XXXXXX)
 trap 'rm -rf "$d"' EXIT
 mkdir -p "$d/repo"
 (cd /repo && tar cf - --exclude=./target --exclude=./.git .) | (cd "$d/repo" && tar xf -)
-(cd "$d/repo" && git apply --recount "$OLDPWD/$seed/patch.diff" 2>&1 || patch -p1 < "$OLDPWD/$seed/patch.diff") 
+case "$seed" in *.diff) pf="$seed";; *) pf="$seed/patch.diff";; esac
+case "$pf" in /*) ;; *) pf="$PWD/$pf";; esac
+(cd "$d/repo" && git apply --recount "$pf" 2>&1 || patch -p1 < "$pf")
 VK_REPO="$d/repo" VK_BUILD="$d/build" VK_EVIDENCE="$d/ev" VK_REPLAYS="$d/replays" python3 -m vk.check "$@" || true
